@@ -33,7 +33,7 @@ func init() {
 			if i%2 == 0 {
 				return &c12Case{Side: "switch", Recipe: switchRecipe(12, seed, i), Slack: r.Pick(0, 1, 8, 64)}
 			}
-			return &c12Case{Side: "ctrl", Recipe: ctrlRecipe(12, tier, seed, i), Slack: r.Pick(0, 1, 8, 64)}
+			return &c12Case{Side: "ctrl", Recipe: withBundleProps(r, ctrlRecipe(12, tier, seed, i)), Slack: r.Pick(0, 1, 8, 64)}
 		},
 		NewCase: func() any { return new(c12Case) },
 		Eval:    c12Eval,
